@@ -39,3 +39,76 @@ Proof.
   destruct (size - off - tail >? buf) eqn:E2; [discriminate|].
   intros H. injection H as <- <- <- <-. lia.
 Qed.
+
+(* ---- InputPcap::recvPacket: the record guard and the copy (regenerated from input_pcap.hpp) *)
+Theorem gen_pcap_copy_eq p0 ret caplen len off tail dfv :
+  0 <= ret -> 0 <= caplen < 2 ^ 32 -> 0 <= len < 2 ^ 32 -> 0 <= off <= 70000 -> 0 <= tail <= 70000 ->
+  InputPcap_recvPacket_copy p0 ret caplen len off tail dfv =
+  if (caplen <? len) || (len <=? off + tail) || (len - off - tail >? 1546) then None
+  else Some [off; len - off - tail; 0; len - off - tail].
+Proof.
+  intros Hr Hc Hl Ho Ht. unfold InputPcap_recvPacket_copy.
+  destruct (ret <? 0) eqn:Er; [lia|].
+  rewrite (wrapu64_small len), (wrapu64_small (off + tail)) by lia. change (wrapu 64 (42 + 4 + 1500)) with 1546. change (wrapu 64 0) with 0.
+  destruct (caplen <? len) eqn:E0; cbn [orb]; [reflexivity|].
+  destruct (len <=? off + tail) eqn:E1; cbn [orb]; [reflexivity|].
+  rewrite (wrapu64_small (len - off)) by lia. rewrite (wrapu64_small (len - off - tail)) by lia. reflexivity.
+Qed.
+
+(* the model's pcap_extract is that guard and that copy, for a record the port filter lets through *)
+Theorem gen_pcap_copy_is_model c f :
+  0 <= pf_len f < 2 ^ 32 -> blen (pf_data f) < 2 ^ 32 -> 0 <= i_user c <= 65535 -> 0 <= i_tail c <= 65535 ->
+  (bpf_udp (i_vlan c) (Some (i_msop_port c)) (pf_data f) || (difop_filter_valid c && bpf_udp (i_vlan c) (Some (i_difop_port c)) (pf_data f))) = true ->
+  pcap_extract c f =
+  match InputPcap_recvPacket_copy 1 0 (blen (pf_data f)) (pf_len f) (Params_gen.g_ETH_HDR_LEN + (if i_vlan c then Params_gen.g_VLAN_HDR_LEN else 0) + i_user c) (i_tail c) 0 with
+  | Some [so; cl; _; _] => Some (slice (pf_data f) so cl)
+  | _ => None
+  end.
+Proof.
+  intros Hl Hc Hu Ht Hhit. assert (Hb : 0 <= blen (pf_data f)) by (unfold blen; lia).
+  assert (Hoff : 0 <= Params_gen.g_ETH_HDR_LEN + (if i_vlan c then Params_gen.g_VLAN_HDR_LEN else 0) + i_user c <= 70000).
+  { change Params_gen.g_ETH_HDR_LEN with 42. change Params_gen.g_VLAN_HDR_LEN with 4. destruct (i_vlan c); lia. }
+  rewrite gen_pcap_copy_eq by lia.
+  unfold pcap_extract. cbv zeta. rewrite Hhit. cbn [negb]. change Params_gen.g_ETH_LEN with 1546.
+  destruct ((blen (pf_data f) <? pf_len f) || _ || _); reflexivity.
+Qed.
+
+(* what the regenerated code copies out of a record lies inside the captured bytes and inside the packet buffer *)
+Theorem gen_pcap_copy_safe p0 ret caplen len off tail dfv so cl d0 dl :
+  0 <= ret -> 0 <= caplen < 2 ^ 32 -> 0 <= len < 2 ^ 32 -> 0 <= off <= 70000 -> 0 <= tail <= 70000 ->
+  InputPcap_recvPacket_copy p0 ret caplen len off tail dfv = Some [so; cl; d0; dl] ->
+  0 < cl /\ so + cl <= caplen /\ d0 + cl <= 1546 /\ dl = cl /\ d0 = 0 /\ so = off.
+Proof.
+  intros Hr Hc Hl Ho Ht. rewrite gen_pcap_copy_eq by lia.
+  destruct (caplen <? len) eqn:E0; cbn [orb]; [discriminate|].
+  destruct (len <=? off + tail) eqn:E1; cbn [orb]; [discriminate|].
+  destruct (len - off - tail >? 1546) eqn:E2; [discriminate|].
+  intros H. injection H as <- <- <- <-. lia.
+Qed.
+
+(* ---- InputSock::recvPacket (select variant): the data range set after recvfrom() returned ret bytes into the packet buffer *)
+Theorem gen_sock_copy_eq rv ret off tail : 0 <= ret < 2 ^ 63 -> 0 <= off <= 65535 -> 0 <= tail <= 65535 ->
+  InputSock_recvPacket_copy rv ret off tail = if ret <=? off + tail then None else Some [off; ret - off - tail].
+Proof.
+  intros Hr Ho Ht. unfold InputSock_recvPacket_copy. destruct (ret <? 0) eqn:E; [lia|].
+  rewrite (wrapu64_small ret), (wrapu64_small (off + tail)) by lia.
+  destruct (ret >? off + tail) eqn:E1; destruct (ret <=? off + tail) eqn:E2; try lia; [|reflexivity].
+  rewrite (wrapu64_small (ret - off)) by lia. rewrite (wrapu64_small (ret - off - tail)) by lia. reflexivity.
+Qed.
+Theorem gen_sock_copy_is_model d off tail buf : 0 <= off <= 65535 -> 0 <= tail <= 65535 -> 0 <= buf < 2 ^ 63 ->
+  sock_extract off tail buf d =
+  match InputSock_recvPacket_copy 1 (Z.min (blen d) buf) off tail with
+  | Some [o; l] => Some (slice d o l)
+  | _ => None
+  end.
+Proof.
+  intros Ho Ht Hb. assert (Hd : 0 <= blen d) by (unfold blen; lia).
+  rewrite gen_sock_copy_eq by lia. unfold sock_extract. cbv zeta. destruct (Z.min (blen d) buf <=? off + tail); reflexivity.
+Qed.
+(* the data range lies inside the part of the buffer recvfrom() filled (ret <= buffer size is recvfrom's contract) *)
+Theorem gen_sock_copy_safe rv ret off tail buf o l : 0 <= ret <= buf -> buf < 2 ^ 63 -> 0 <= off <= 65535 -> 0 <= tail <= 65535 ->
+  InputSock_recvPacket_copy rv ret off tail = Some [o; l] -> 0 < l /\ o + l <= ret /\ o + l <= buf /\ o = off.
+Proof.
+  intros Hr Hb Ho Ht. rewrite gen_sock_copy_eq by lia. destruct (ret <=? off + tail) eqn:E; [discriminate|].
+  intros H. injection H as <- <-. lia.
+Qed.
